@@ -27,7 +27,12 @@ func passphraseBytes(run *vk.Run) {
 		sig := fmt.Sprintf("passphrase-bytes:%q", pw)
 		r, err := age.NewScryptRecipient(pw)
 		if err != nil {
-			vk.Infra("NewScryptRecipient(%q): %v", pw, err)
+			// (no file to look at; the identity side below is what "existing files keep decrypting" is about)
+			run.Drift("passphrase bytes: NewScryptRecipient(%q) refused: %v", pw, err)
+			if _, ierr := age.NewScryptIdentity(pw); ierr != nil {
+				run.Violation("C05:reference-file-does-not-decrypt:"+sig, fmt.Sprintf("the non-empty passphrase %q is refused by NewScryptIdentity (%v): a file made with it can no longer be decrypted", pw, ierr), map[string]interface{}{"check": "C05.pwbytes", "passphrase": []byte(pw)})
+			}
+			continue
 		}
 		r.SetWorkFactor(3 + i%3)
 		var buf bytes.Buffer
@@ -65,7 +70,8 @@ func passphraseBytes(run *vk.Run) {
 		// the library opens it with the same passphrase
 		id, err := age.NewScryptIdentity(pw)
 		if err != nil {
-			vk.Infra("NewScryptIdentity(%q): %v", pw, err)
+			run.Violation("C05:reference-file-does-not-decrypt:"+sig, fmt.Sprintf("the non-empty passphrase %q is refused by NewScryptIdentity (%v): a file made with it can no longer be decrypted", pw, err), map[string]interface{}{"check": "C05.pwbytes", "passphrase": []byte(pw)})
+			continue
 		}
 		id.SetMaxWorkFactor(10)
 		got := []byte(nil)
